@@ -116,7 +116,9 @@ type evaluator struct {
 	fields map[string]poly
 	env    map[types.Object]poly
 	lenK   types.Object // slice of kept positions: len(it) is the symbol k
-	body   ast.Node     // function body: single-assignment locals not yet in env are resolved lazily
+	ctx    *core.Ctx    // to follow same-package helpers that compute integers (cmd.keyRange(len(args)))
+	depth  int
+	body   ast.Node // function body: single-assignment locals not yet in env are resolved lazily
 	busy   map[types.Object]bool
 	opaque int
 }
@@ -175,7 +177,19 @@ func (ev *evaluator) eval(e ast.Expr) (poly, bool) {
 			p, ok := ev.fields[x.Sel.Name]
 			return p, ok
 		}
+	case *ast.IndexExpr:
+		// arr[a]: the position of the a-th kept key
+		if o := objOf(ev.info, x.X); o != nil && o == ev.lenK {
+			if idx, ok := ev.eval(x.Index); ok {
+				if name, one := singleSym(idx); one {
+					return sym("@" + name), true
+				}
+			}
+		}
 	case *ast.CallExpr:
+		if res, ok := ev.call(x); ok && len(res) == 1 {
+			return res[0], true
+		}
 		if b, ok := core.Callee(ev.info, x).(*types.Builtin); ok && b.Name() == "len" && len(x.Args) == 1 {
 			if o := objOf(ev.info, x.Args[0]); o != nil && o == ev.args {
 				return sym("n"), true
@@ -237,12 +251,119 @@ func (ev *evaluator) cond(e ast.Expr) (val, ok bool) {
 	return false, false
 }
 
+// call evaluates a call of a same-package function or method whose body is
+// straight-line integer code ending in a return: parameters are bound to the
+// evaluated arguments, the receiver (or a parameter) that is the command struct
+// keeps giving access to its fields, the args vector keeps its length symbol.
+// Results that are not integers are nil.
+func (ev *evaluator) call(call *ast.CallExpr) ([]poly, bool) {
+	if ev.ctx == nil || ev.depth > 1 {
+		return nil, false
+	}
+	f := core.CalleeFunc(ev.info, call)
+	if f == nil || f.Pkg() == nil || ev.cmd == nil || f.Pkg() != ev.cmd.Pkg() {
+		return nil, false
+	}
+	hf := ev.ctx.FnOf(f)
+	if hf == nil || hf.Decl.Body == nil {
+		return nil, false
+	}
+	sig := f.Type().(*types.Signature)
+	sub := &evaluator{info: ev.info, fields: ev.fields, env: map[types.Object]poly{}, ctx: ev.ctx, depth: ev.depth + 1, lenK: nil}
+	bindTo := func(param types.Object, arg ast.Expr) {
+		switch o := objOf(ev.info, arg); {
+		case o != nil && o == ev.cmd:
+			sub.cmd = param
+		case o != nil && o == ev.args:
+			sub.args = param
+		default:
+			if p, ok := ev.eval(arg); ok {
+				sub.env[param] = p
+			}
+		}
+	}
+	if sig.Recv() != nil {
+		if sel, ok := ast.Unparen(call.Fun).(*ast.SelectorExpr); ok {
+			bindTo(sig.Recv(), sel.X)
+		}
+	}
+	if sig.Params().Len() != len(call.Args) || sig.Variadic() {
+		return nil, false
+	}
+	for i := 0; i < sig.Params().Len(); i++ {
+		bindTo(sig.Params().At(i), call.Args[i])
+	}
+	for i := 0; i < sig.Results().Len(); i++ {
+		if r := sig.Results().At(i); r.Name() != "" {
+			if b, ok := r.Type().Underlying().(*types.Basic); ok && b.Info()&types.IsInteger != 0 {
+				sub.env[r] = konst(0)
+			}
+		}
+	}
+	list := hf.Decl.Body.List
+	if len(list) == 0 {
+		return nil, false
+	}
+	ret, ok := list[len(list)-1].(*ast.ReturnStmt)
+	if !ok {
+		return nil, false
+	}
+	for _, st := range list[:len(list)-1] { // no other exit, nothing but integer bookkeeping
+		bad := false
+		ast.Inspect(st, func(n ast.Node) bool {
+			switch n.(type) {
+			case *ast.ReturnStmt, *ast.ForStmt, *ast.RangeStmt, *ast.GoStmt, *ast.DeferStmt, *ast.BranchStmt:
+				bad = true
+			}
+			return true
+		})
+		if bad {
+			return nil, false
+		}
+	}
+	sub.exec(list[:len(list)-1])
+	if sub.opaque > 0 {
+		ev.opaque += sub.opaque
+	}
+	out := make([]poly, sig.Results().Len())
+	for i := range out {
+		if len(ret.Results) == len(out) {
+			if p, ok := sub.eval(ret.Results[i]); ok {
+				out[i] = p
+			}
+		} else if len(ret.Results) == 0 {
+			if p, ok := sub.env[sig.Results().At(i)]; ok {
+				out[i] = p
+			}
+		} else {
+			return nil, false
+		}
+	}
+	return out, true
+}
+
 // exec runs straight-line integer statements; an `if` whose condition cannot
 // be decided makes every variable assigned inside opaque.
 func (ev *evaluator) exec(stmts []ast.Stmt) {
 	for _, s := range stmts {
 		switch st := s.(type) {
 		case *ast.AssignStmt:
+			if len(st.Rhs) == 1 && len(st.Lhs) > 1 && (st.Tok == token.ASSIGN || st.Tok == token.DEFINE) {
+				// first, last, step := cmd.keyRange(len(args))
+				if call, ok := ast.Unparen(st.Rhs[0]).(*ast.CallExpr); ok {
+					res, ok := ev.call(call)
+					for i, l := range st.Lhs {
+						if o := objOf(ev.info, l); o != nil {
+							if ok && i < len(res) && res[i] != nil {
+								ev.env[o] = res[i]
+							} else {
+								delete(ev.env, o)
+							}
+						}
+					}
+					continue
+				}
+			}
 			for i, l := range st.Lhs {
 				o := objOf(ev.info, l)
 				if o == nil {
@@ -352,18 +473,7 @@ type interp struct {
 	cmpOp    token.Token // LEQ or LSS
 	eS       ast.Expr    // nil => stride 1 (i++)
 	arr, num ast.Expr
-	newV     ast.Expr
-	eLen     ast.Expr
-	grp      *ast.AssignStmt // new[D] = args[arr[a]+b]
-	grpA     ast.Expr
-	grpB     ast.Expr
-	eC       ast.Expr
-	tail     *ast.AssignStmt // new[D] = args[t]
-	tailVar  ast.Expr
-	eT       ast.Expr
-	tailCtr  types.Object // j initialised before and incremented once per iteration of the tail loop (may be nil)
-	tailInit ast.Expr     // its initial value
-	eP       ast.Expr     // prefix length (nil => no prefix copy)
+	after    []ast.Stmt // the copy-out phase: statements behind the key loop (interpreted, see copyout.go)
 	// where the key loop lives: getMatchKeys itself or a same-package helper it calls
 	keyFn    *core.Fn
 	keyArgs  types.Object // the argument vector as seen by the key loop
@@ -563,141 +673,24 @@ func (it *interp) recover(filterKey *types.Func) string {
 	} else if objOf(info, it.num) == nil {
 		return "position counter is not a local variable"
 	}
-	// group copy: new[d] = args[arr[a]+b] in `for a < num { for b < size`, or
-	// new[d] = args[pos+b] in `for a, pos := range arr[:num] { for b < size`
-	zero := func(e ast.Expr) bool { k, ok := core.IntConst(info, e); return ok && k == 0 }
-	bd := pat.Binds{"_args": it.argsP, "_arr": it.arr}
-	if g, gb := pat.Stmt("_new[_d] = _args[_arr[_a] + _b]").Find(info, body, bd); g != nil {
-		it.grp, it.newV, it.grpA, it.grpB = g.(*ast.AssignStmt), gb["_new"].(ast.Expr), gb["_a"].(ast.Expr), gb["_b"].(ast.Expr)
-		loops := enclosingLoops(body, g)
-		if len(loops) != 2 {
-			return "kept-group copy is not inside exactly two nested loops"
-		}
-		fa, isFor := loops[0].(*ast.ForStmt)
-		va, ia, ba, oa, sa, ok1 := forHeader(info, fa)
-		if !isFor || !ok1 || !pat.Same(info, va, it.grpA) || !zero(ia) || oa != token.LSS || sa != nil || !pat.Same(info, ba, it.num) {
-			return "outer kept-group loop is not `for a := 0; a < num; a++`"
-		}
-	} else {
-		found := false
-		for _, g := range pat.Stmt("_new[_d] = _args[_pos + _b]").FindAll(info, body, pat.Binds{"_args": it.argsP}) {
-			loops := enclosingLoops(body, g)
-			if len(loops) != 2 {
-				continue
-			}
-			r, isRange := loops[0].(*ast.RangeStmt)
-			gb := pat.Stmt("_new[_d] = _args[_pos + _b]").Match(info, g, pat.Binds{"_args": it.argsP})
-			if !isRange || r.Key == nil || r.Value == nil || objOf(info, r.Key) == nil || !pat.Same(info, r.Value, gb["_pos"]) {
-				continue
-			}
-			over := pat.Expr("_arr[:_num]").Match(info, r.X, pat.Binds{"_arr": it.arr, "_num": it.num}) != nil ||
-				it.appended && pat.Same(info, r.X, it.arr)
-			if !over {
-				continue
-			}
-			it.grp, it.newV, it.grpA, it.grpB, found = g.(*ast.AssignStmt), gb["_new"].(ast.Expr), r.Key, gb["_b"].(ast.Expr), true
-		}
-		if !found {
-			return "no copy of the kept groups `new[d] = args[arr[a] + b]` (or ranging over arr[:num])"
-		}
-	}
-	loops := enclosingLoops(body, it.grp)
-	fb, isFor := loops[1].(*ast.ForStmt)
-	vb, ib, bb, ob, sb, ok2 := forHeader(info, fb)
-	if !isFor || !ok2 || !pat.Same(info, vb, it.grpB) || !zero(ib) || ob != token.LSS || sb != nil {
-		return "inner kept-group loop is not `for b := 0; b < size; b++`"
-	}
-	it.eC = bb
-	// allocation
-	if a, ab := pat.Stmt("_new = make(_t, _len)").Find(info, body, pat.Binds{"_new": it.newV}); a != nil {
-		it.eLen = ab["_len"].(ast.Expr)
-	} else {
-		return "no allocation `new = make(T, length)`"
-	}
-	// tail copy
-	for _, t := range pat.Stmt("_new[_d] = _args[_t]").FindAll(info, body, pat.Binds{"_new": it.newV, "_args": it.argsP}) {
-		as := t.(*ast.AssignStmt)
-		src := ast.Unparen(as.Rhs[0]).(*ast.IndexExpr).Index
-		fs := enclosingFors(body, t)
-		if objOf(info, src) == nil || len(fs) != 1 {
-			continue
-		}
-		v, init, bound, op, step, ok := forHeader(info, fs[0])
-		if !ok || !pat.Same(info, v, src) || step != nil {
-			continue
-		}
-		if zero(init) { // prefix copy: for p := 0; p < P; p++ { new[p] = args[p] }
-			if op == token.LSS && pat.Same(info, ast.Unparen(as.Lhs[0]).(*ast.IndexExpr).Index, src) {
-				it.eP = bound
-			}
-			continue
-		}
-		if op != token.LSS || pat.Expr("len(_args)").Match(info, bound, pat.Binds{"_args": it.argsP}) == nil {
-			return "tail loop does not run to len(args)"
-		}
-		it.tail, it.tailVar, it.eT = as, v, init
-		// optional counter j
-		ast.Inspect(ast.Unparen(as.Lhs[0]).(*ast.IndexExpr).Index, func(m ast.Node) bool {
-			if id, ok := m.(*ast.Ident); ok {
-				o := info.Uses[id]
-				bj := pat.Binds{"_j": id}
-				inc := 0
-				for _, s := range fs[0].Body.List {
-					if pat.Stmt("_j++").Match(info, s, bj) != nil || pat.Stmt("_j += 1").Match(info, s, bj) != nil || pat.Stmt("_j = _j + 1").Match(info, s, bj) != nil {
-						inc++
-					}
-				}
-				if inc == 1 {
-					it.tailCtr = o
-				}
-			}
-			return true
-		})
-	}
-	if it.tail == nil {
-		return "no tail copy `for t := start; t < len(args); t++ { new[d] = args[t] }`"
-	}
-	if it.tailCtr != nil { // initialised exactly once, at top level, before the loop
-		inits := 0
-		for _, s := range body.List {
-			if _, isFor := s.(*ast.ForStmt); isFor {
-				continue
-			}
-			if as, ok := s.(*ast.AssignStmt); ok && len(as.Lhs) == 1 && len(as.Rhs) == 1 && objOf(info, as.Lhs[0]) == it.tailCtr && (as.Tok == token.DEFINE || as.Tok == token.ASSIGN) {
-				it.tailInit = as.Rhs[0]
-				inits++
-			}
-		}
-		if inits != 1 {
-			return "tail counter is not initialised exactly once before the tail loop"
-		}
-	}
-	// prefix copy by copy(new, args[:P]) / copy(new[:P], args[:P])
-	for _, p := range []string{"copy(_new, _args[:_p])", "copy(_new[:_p], _args[:_p])", "copy(_new[:_p], _args)"} {
-		if n, b := pat.Expr(p).Find(info, body, pat.Binds{"_new": it.newV, "_args": it.argsP}); n != nil {
-			it.eP = b["_p"].(ast.Expr)
-		}
+	// the copy-out phase is interpreted, not matched: try it once on symbolic f, l, s
+	it.after = body.List[at+1:]
+	if _, why := it.runCopyOut(it.newEval(nil, nil, nil)).classify(); why != "" {
+		return "cannot follow how the rebuilt vector is filled: " + why
 	}
 	return ""
 }
 
 // newEval prepares an evaluator; fields nil => symbolic f, l, s.
 func (it *interp) newEval(f, l, s *int64) *evaluator {
-	ev := &evaluator{info: it.info, cmd: it.info.Defs[it.cmdP], args: it.info.Defs[it.argsP], env: map[types.Object]poly{}, fields: map[string]poly{}}
+	ev := &evaluator{info: it.info, cmd: it.info.Defs[it.cmdP], args: it.info.Defs[it.argsP], env: map[types.Object]poly{}, fields: map[string]poly{}, ctx: it.c}
 	if f == nil {
 		ev.fields[it.fnames[0]], ev.fields[it.fnames[1]], ev.fields[it.fnames[2]] = sym("f"), sym("l"), sym("s")
 	} else {
 		ev.fields[it.fnames[0]], ev.fields[it.fnames[1]], ev.fields[it.fnames[2]] = konst(*f), konst(*l), konst(*s)
 	}
 	ev.lenK = objOf(it.info, it.arr)
-	// the tail counter's initialisation is evaluated where it is needed, not here
-	var pre []ast.Stmt
-	for _, st := range it.preamble {
-		if as, ok := st.(*ast.AssignStmt); ok && it.tailCtr != nil && len(as.Lhs) == 1 && objOf(it.info, as.Lhs[0]) == it.tailCtr {
-			continue
-		}
-		pre = append(pre, st)
-	}
+	pre := it.preamble
 	ev.exec(pre)
 	// from here on we are behind the key loop: the counter holds the number of
 	// kept keys, and later single-assignment locals are resolved when used
@@ -740,27 +733,24 @@ func (it *interp) conventionFor(f, l, s int64) (cv convention, why string) {
 	F, ok1 := get(it.eF, "first index")
 	L, ok2 := get(it.eL, "last index")
 	S, ok3 := get(it.eS, "stride")
-	T, ok4 := get(it.eT, "tail start")
-	C, ok5 := get(it.eC, "group size")
-	P := konst(0)
-	ok6 := true
-	if it.eP != nil {
-		P, ok6 = get(it.eP, "prefix length")
-	}
-	if !(ok1 && ok2 && ok3 && ok4 && ok5 && ok6) {
+	if !(ok1 && ok2 && ok3) {
 		return cv, why
+	}
+	lay, w := it.runCopyOut(ev).classify()
+	if w != "" {
+		return cv, w
 	}
 	var okc [4]bool
 	cv.F, okc[0] = F.isConst()
 	cv.S, okc[1] = S.isConst()
-	cv.C, okc[2] = C.isConst()
-	cv.P, okc[3] = P.isConst()
+	cv.C, okc[2] = lay.C.isConst()
+	cv.P, okc[3] = lay.P.isConst()
 	var okL, okT bool
 	cv.La, cv.Lb, okL = L.affine("n")
-	cv.Ta, cv.Tb, okT = T.affine("n")
+	cv.Ta, cv.Tb, okT = lay.T.affine("n")
 	cv.strict = it.cmpOp == token.LSS
 	if !(okc[0] && okc[1] && okc[2] && okc[3] && okL && okT) || cv.La < 0 || cv.La > 1 {
-		return cv, fmt.Sprintf("interpreter quantities are not of the form a*len(args)+b (first=%v last=%v step=%v tail=%v)", F, L, S, T)
+		return cv, fmt.Sprintf("interpreter quantities are not of the form a*len(args)+b (first=%v last=%v step=%v tail=%v)", F, L, S, lay.T)
 	}
 	return cv, ""
 }
@@ -769,55 +759,44 @@ func (it *interp) conventionFor(f, l, s int64) (cv convention, why string) {
 func (it *interp) r3() {
 	c := it.c
 	ev := it.newEval(nil, nil, nil)
-	info := it.info
-	k := sym("k")
-	if o := objOf(info, it.num); o != nil {
-		ev.env[o] = k
-	}
-	need := func(e ast.Expr, what string) (poly, bool) {
-		if e == nil {
-			return konst(1), true
-		}
-		p, ok := ev.eval(e)
-		if !ok {
-			c.Undecidedf("R3.ranges", what, e.Pos(), "cannot evaluate %s symbolically", c.Src(e))
-		}
-		return p, ok
-	}
-	S, ok1 := need(it.eS, "stride")
-	C, ok2 := need(it.eC, "group-size")
-	T, ok3 := need(it.eT, "tail-start")
-	LEN, ok4 := need(it.eLen, "alloc-length")
-	P := konst(0)
-	ok5 := true
-	if it.eP != nil {
-		P, ok5 = need(it.eP, "prefix")
-	}
-	if !(ok1 && ok2 && ok3 && ok4 && ok5) {
-		return
-	}
-	c.Check("R3.ranges", "group-size", it.grp.Pos(), C.eq(S),
-		fmt.Sprintf("each kept key is copied with %v consecutive arguments but the key loop advances by %v: companions (MSET values) are dropped or the next key is copied as a companion", C, S))
-	ev.env[objOf(info, it.grpA)], ev.env[objOf(info, it.grpB)] = sym("a"), sym("b")
-	if D, ok := need(ast.Unparen(it.grp.Lhs[0]).(*ast.IndexExpr).Index, "group-dest"); ok {
-		want := P.add(sym("a").mul(C), 1).add(sym("b"), 1)
-		c.Check("R3.ranges", "group-dest", it.grp.Pos(), D.eq(want),
-			fmt.Sprintf("kept group a, element b must land at %v (found %v): otherwise kept keys overwrite each other or leave nil holes in the forwarded command", want, D))
-	}
-	ev.env[objOf(info, it.tailVar)] = sym("t")
-	if it.tailCtr != nil {
-		init, ok := need(it.tailInit, "tail-counter")
-		if !ok {
+	S := konst(1)
+	if it.eS != nil {
+		var ok bool
+		if S, ok = ev.eval(it.eS); !ok {
+			c.Undecidedf("R3.ranges", "stride", it.eS.Pos(), "cannot evaluate %s symbolically", c.Src(it.eS))
 			return
 		}
-		ev.env[it.tailCtr] = init.add(sym("t"), 1).add(T, -1)
 	}
-	if D, ok := need(ast.Unparen(it.tail.Lhs[0]).(*ast.IndexExpr).Index, "tail-dest"); ok {
-		want := P.add(k.mul(C), 1).add(sym("t"), 1).add(T, -1)
-		c.Check("R3.ranges", "tail-dest", it.tail.Pos(), D.eq(want),
-			fmt.Sprintf("tail argument t must land right after the kept groups, at %v (found %v): otherwise trailing options overwrite kept keys or are misplaced", want, D))
+	lay, why := it.runCopyOut(ev).classify()
+	if why != "" {
+		c.Undecidedf("R3.ranges", "copy-out", it.fn.Decl.Pos(), "%s", why)
+		return
 	}
-	want := P.add(k.mul(C), 1).add(sym("n"), 1).add(T, -1)
-	c.Check("R3.ranges", "alloc-length", it.eLen.Pos(), LEN.eq(want),
-		fmt.Sprintf("the rebuilt vector must have prefix + kept*group + tail = %v elements (found %v): a longer one forwards nil arguments, a shorter one panics", want, LEN))
+	k := sym("k")
+	P, C, T := lay.P, lay.C, lay.T
+	c.Check("R3.ranges", "group-size", lay.grp.node.Pos(), C.eq(S),
+		fmt.Sprintf("each kept key is copied with %v consecutive arguments but the key loop advances by %v: companions (MSET values) are dropped or the next key is copied as a companion", C, S))
+	// group a, element b
+	var a, b poly
+	for m := range lay.grp.src {
+		if len(m) > 0 && m[0] == '@' {
+			a = sym(m[1:])
+		}
+	}
+	b = lay.grp.src.add(sym("@"+onlySym(a)), -1)
+	want := P.add(a.mul(C), 1).add(b, 1)
+	c.Check("R3.ranges", "group-dest", lay.grp.node.Pos(), lay.grp.dst.eq(want),
+		fmt.Sprintf("kept group a, element b must land at %v (found %v): otherwise kept keys overwrite each other or leave nil holes in the forwarded command", lay.rename(want, lay.grp), lay.rename(lay.grp.dst, lay.grp)))
+	t := lay.tail.src
+	want = P.add(k.mul(C), 1).add(t, 1).add(T, -1)
+	c.Check("R3.ranges", "tail-dest", lay.tail.node.Pos(), lay.tail.dst.eq(want),
+		fmt.Sprintf("tail argument t must land right after the kept groups, at %v (found %v): otherwise trailing options overwrite kept keys or are misplaced", lay.rename(want, lay.tail), lay.rename(lay.tail.dst, lay.tail)))
+	want = P.add(k.mul(C), 1).add(sym("n"), 1).add(T, -1)
+	c.Check("R3.ranges", "alloc-length", lay.lenAt.Pos(), lay.LEN.eq(want),
+		fmt.Sprintf("the rebuilt vector must have prefix + kept*group + tail = %v elements (found %v): a longer one forwards nil arguments, a shorter one panics", want, lay.LEN))
+}
+
+func onlySym(p poly) string {
+	s, _ := singleSym(p)
+	return s
 }
